@@ -15,8 +15,45 @@ pub enum Form {
     AddByte,
     /// update_by_iter with an iterator whose size hint is inexact (lower bound 0, upper bound twice the real length)
     IterInexact,
+    /// `+= &[u8; N]` only: the data is cut greedily into arrays of 21, 14, 7 and 1 bytes
+    AddArray,
+    /// update_by_iter with `&mut` of an iterator that is NOT fused: it yields the data, then `None`, then junk;
+    /// the sequence ends at the first `None` and the junk must still be in the iterator afterwards
+    IterNotFused,
 }
-pub const FORMS: [Form; 6] = [Form::Slice, Form::Iter, Form::Byte, Form::AddSlice, Form::AddByte, Form::IterInexact];
+pub const FORMS: [Form; 8] = [Form::Slice, Form::Iter, Form::Byte, Form::AddSlice, Form::AddByte, Form::IterInexact, Form::AddArray, Form::IterNotFused];
+
+/// An iterator that is not fused: `data`, then one `None`, then 37 junk bytes, then `None` for good.
+pub struct NotFused<'a> {
+    pub data: &'a [u8],
+    pub pos: usize,
+    pub ended_once: bool,
+    pub polled_after_end: u32,
+}
+impl<'a> NotFused<'a> {
+    pub fn new(data: &'a [u8]) -> Self {
+        NotFused { data, pos: 0, ended_once: false, polled_after_end: 0 }
+    }
+}
+impl Iterator for NotFused<'_> {
+    type Item = u8;
+    fn next(&mut self) -> Option<u8> {
+        if self.pos < self.data.len() {
+            self.pos += 1;
+            Some(self.data[self.pos - 1])
+        } else if !self.ended_once {
+            self.ended_once = true;
+            None
+        } else {
+            self.polled_after_end += 1;
+            if self.polled_after_end <= 37 {
+                Some(0xA5 ^ (self.polled_after_end as u8))
+            } else {
+                None
+            }
+        }
+    }
+}
 pub const FORMS3: [Form; 3] = [Form::Slice, Form::Iter, Form::Byte];
 pub const FORMS4: [Form; 4] = [Form::Slice, Form::Iter, Form::Byte, Form::IterInexact];
 
@@ -44,6 +81,32 @@ pub fn feed(g: &mut Generator, data: &[u8], form: Form) {
         Form::IterInexact => {
             let doubled: Vec<(bool, u8)> = data.iter().flat_map(|&b| [(true, b), (false, !b)]).collect();
             g.update_by_iter(doubled.iter().filter(|x| x.0).map(|x| x.1));
+        }
+        Form::AddArray => {
+            // every byte goes through `+= &[u8; N]`: greedily 21-, 14-, 7-byte arrays, then single-byte arrays
+            let mut rest = data;
+            while !rest.is_empty() {
+                macro_rules! take {
+                    ($n:expr) => {{
+                        let a: [u8; $n] = rest[..$n].try_into().unwrap();
+                        *g += &a;
+                        rest = &rest[$n..];
+                    }};
+                }
+                if rest.len() >= 21 {
+                    take!(21)
+                } else if rest.len() >= 14 {
+                    take!(14)
+                } else if rest.len() >= 7 {
+                    take!(7)
+                } else {
+                    take!(1)
+                }
+            }
+        }
+        Form::IterNotFused => {
+            let mut it = NotFused::new(data);
+            g.update_by_iter(&mut it);
         }
     }
 }
